@@ -183,6 +183,44 @@ class ODict(T):
         return f"odict[{self.k}->{self.v}]"
 
 
+class SDict(T):
+    """A dict with a fixed universe of constant string keys, each optionally
+    present (e.g. ContractionTree.info[node]): per field a presence flag and a
+    value."""
+
+    kind = "sdict"
+    mutable = True
+
+    def __init__(self, fields):
+        self.fields = dict(fields)
+
+    def sorts(self):
+        out = []
+        for t in self.fields.values():
+            out.append(BoolS)
+            out.extend(t.sorts())
+        return out
+
+    def __repr__(self):
+        return f"sdict{list(self.fields)}"
+
+    def offsets(self):
+        off, i = {}, 0
+        for n, t in self.fields.items():
+            k = len(t.sorts())
+            off[n] = (i, i + 1, i + 1 + k, t)
+            i += 1 + k
+        return off
+
+
+def sdict_empty(t, prefix="sd"):
+    comps = []
+    for n, ft in t.fields.items():
+        comps.append(z3.BoolVal(False))
+        comps.extend(fresh(f"{prefix}.{n}", s) for s in ft.sorts())
+    return V(t, comps)
+
+
 class Fn(T):
     """An opaque callable (external with an assumed contract)."""
 
